@@ -14,7 +14,7 @@ EXPLANATION = (
     "SPIR-V binary the Lean decoder extracts execution models, LocalSize, DescriptorSet/Binding/Location/BuiltIn decorations, storage "
     "classes and every OpEntryPoint interface list; from the HLSL/MSL/GLSL text the harness extracts register(...)/[[buffer(n)]]/"
     "layout(binding=n) annotations per resource (MSL, GLSL: per entry point) and the reflected entry-point names; all are compared "
-    "with the model's expectation, item for item. A difference is a concrete module + option set.")
+    "with the model's expectation, item for item. A difference is a concrete module + option set. Stage-interface shapes (S, c17iface): vertex / fragment entry points with 1-4 arguments — bare @builtin and @location arguments and struct arguments whose members mix locations and builtins, in any order — and bare or struct results; for HLSL, MSL and GLSL the emitted text must be readable by the independent parser (no nameless parameter, no empty member reference) and the user locations on the input side and on the output side, read from the text, must be exactly the WGSL's.")
 ASSUMPTIONS = [
     "Lean 4 kernel; axioms propext, Classical.choice, Quot.sound only",
     "Naga.Model.Bind is my reading of the WGSL->SPIR-V/HLSL/MSL/GLSL binding conventions (Vulkan: DescriptorSet=@group, "
@@ -30,6 +30,39 @@ def unq(s):
     return s.replace("\\n", "\n").replace('\\"', '"').replace("\\\\", "\\")
 
 
+def iface_sweep(ck):
+    """Stage interfaces in every argument shape (bare @builtin / @location arguments and struct arguments in any order):
+    the text of every text back end must be readable and carry exactly the WGSL's user locations on each side."""
+    out = ck.harness("c17iface", {"quick": 300, "thorough": 20000}.get(ck.tier, 300), timeout=3000, subdir="c17iface")
+    if out is None:
+        return
+    st = ck.stats.get("c17iface", {})
+    for k in ("texts:hlsl", "texts:msl", "texts:glsl"):
+        for _ in range(st.get(k, 0)):
+            ck.evaluations += 1
+    ck.extra["stage_interface_sweep"] = {k: v for k, v in st.items()}
+    un = lambda x: x.replace("\\n", "\n").replace('\\"', '"').replace("\\\\", "\\")
+    seen = set()
+    vf = os.path.join(out, "violations.txt")
+    if os.path.exists(vf):
+        for l in common.read_lines(vf):
+            m = re.match(r'"((?:[^"\\]|\\.)*)" "((?:[^"\\]|\\.)*)" "((?:[^"\\]|\\.)*)"', l)
+            what = un(m.group(1)) if m else l[:300]
+            cls = re.sub(r"[0-9]+", "N", what)[:80]
+            if cls in seen:
+                continue
+            seen.add(cls)
+            ck.violation({"kind": "stage-interface-not-preserved", "what": what, "wgsl": un(m.group(2)) if m else None,
+                          "emitted": un(m.group(3))[:5000] if m else None,
+                          "how": "the emitted text is unreadable (nameless parameter, empty member reference …) or the user locations "
+                                 "on the input / output side of the entry point differ from the WGSL declaration"}, found_input=True)
+    bf = os.path.join(out, "backend-errors.txt")
+    if os.path.exists(bf):
+        for l in common.read_lines(bf)[:2]:
+            ck.violation({"kind": "stage-interface-backend-error", "what": l[:1500],
+                          "how": "a text back end refused a valid vertex / fragment entry point"}, found_input=True)
+
+
 def run(ck):
     ck.rule = ("modules with 2-6 globals (storage rw/ro, uniform, private, workgroup; random group 0-3 / binding 0-7), 0-3 helpers "
                "(call DAG), 1-4 entry points (compute/vertex/fragment) x SPIR-V 1.0-1.6 x Debug/ForcePointSize/AdjustCoordinateSpace x "
@@ -42,6 +75,7 @@ def run(ck):
         ck.leanchecker(["Naga.Props.C17"])
     if not ck.build_harness() or not ck.driver():
         return
+    iface_sweep(ck)
     out = ck.harness("c17", N.get(ck.tier, N["quick"]), timeout=7000)
     if out is None or not ck.run_driver(["c17"], os.path.join(out, "cases.txt"), os.path.join(out, "model.txt")):
         return
